@@ -3,7 +3,7 @@
 //  h_asm cases <in> <out>              fork-per-case: assemble `src`, report image/listing/diagnostic
 //  h_asm c04 <level> <mnemonic> <spelling> <lo> <hi> <stride> <out.json>
 //        level    = text | dir
-//        spelling = u (unsigned decimal) | s (signed decimal: -n for negative values)
+//        spelling = u (unsigned decimal) | s (signed decimal: -n for negative values) | m (-n for every value, n = -v mod 2^32)
 //        assembles every value v = lo, lo+stride, ... < hi (as 32-bit patterns) in batches
 //        and decode-walks the emitted image with the ISA's own prefix rule.
 #include <cstdio>
@@ -100,6 +100,7 @@ const hexasm::Token MTOK[12] = {hexasm::Token::LDAM, hexasm::Token::LDBM, hexasm
 
 std::string spell(uint32_t v, char spelling) {
   if (spelling == 's' && (int32_t)v < 0) return "-" + std::to_string((uint64_t)0x100000000ull - v);
+  if (spelling == 'm') return "-" + std::to_string(((uint64_t)0x100000000ull - v) & 0xFFFFFFFFull);   // every value as -n, n < 2^32
   return std::to_string(v);
 }
 
